@@ -87,6 +87,11 @@ class Spec(object):
                                         tag='POST@%s K1 empty K2 set' % mv))
         out.append(reqs.post_allocs({k1: ent(k1, one), k2: ent(k2, {P(1): {'VCPU': 5}})},
                                     mv='1.28', tag='POST second entry over capacity'))
+        # a provider listed with nothing to allocate from it: not a write the schema admits, and
+        # certainly not one that may leave a consumer record behind
+        for mv in ('1.13', '1.38'):
+            out.append(reqs.post_allocs({k1: ent(k1, {P(1): {}})}, mv=mv,
+                                        tag='POST@%s empty resources object' % mv))
         out.append(reqs.post_allocs({k1: ent(k1, one), k2: ent(k2, {UNKNOWN_UUID: {'VCPU': 1}})},
                                     mv='1.28', tag='POST second entry unknown provider'))
         out.append(reqs.post_allocs({k1: ent(k1, one),
